@@ -217,9 +217,13 @@ pub fn config(name: &str, wasm: &[u8], out: &mut Vec<Json>) {
             if prod && !b.sections.iter().any(|s| s == "custom:producers") { out.push(v("producers-switch-wrong", "C14", format!("{}: {}: the output has no producers section", name, how), wasm, format!("{:?}", b.sections), String::new())); }
         } } }
     // processed-by exactly once however often round-tripped; other fields preserved in order
-    let prod_of = |bytes: &[u8]| -> Option<Vec<(String, Vec<(String, String)>)>> { let a = amod::decode(bytes).ok()?; let c = a.customs.iter().find(|c| c.0 == "producers")?;
-        let r = wasmparser::ProducersSectionReader::new(wasmparser::BinaryReader::new(&c.1, 0, WasmFeatures::all())).ok()?; let mut fs = vec![];
-        for f in r { let f = f.ok()?; let mut vs = vec![]; for x in f.values { let x = x.ok()?; vs.push((x.name.to_string(), x.version.to_string())); } fs.push((f.name.to_string(), vs)); } Some(fs) };
+    let prod_of = |bytes: &[u8]| -> Option<Vec<(String, Vec<(String, String)>)>> { let a = amod::decode(bytes).ok()?; if !a.customs.iter().any(|c| c.0 == "producers") { return None; }
+        // EVERY producers section of the module contributes its fields, in order (walrus appends them; an unreadable section contributes what was read before the error - nothing, here)
+        let mut fs = vec![];
+        for c in a.customs.iter().filter(|c| c.0 == "producers") { let r = match wasmparser::ProducersSectionReader::new(wasmparser::BinaryReader::new(&c.1, 0, WasmFeatures::all())) { Ok(r) => r, Err(_) => continue }; let mut part = vec![]; let mut ok = true;
+            for f in r { let f = match f { Ok(f) => f, Err(_) => { ok = false; break } }; let mut vs = vec![]; for x in f.values { match x { Ok(x) => vs.push((x.name.to_string(), x.version.to_string())), Err(_) => { ok = false; break } } } if !ok { break; } part.push((f.name.to_string(), vs)); }
+            if ok { fs.extend(part); } else if a.customs.iter().filter(|c| c.0 == "producers").count() == 1 { return None; } }
+        Some(fs) };
     let input_prod = prod_of(wasm).unwrap_or_default();
     let mut cur = wasm.to_vec();
     for round in 1..=3 {
